@@ -112,6 +112,9 @@ func newPointerEncoder(encoder *encoding.EncodeAssembler[any, Value]) encoding.E
 					return nil, nil
 				}
 				s := reflect.ValueOf(source)
+				if s.IsNil() {
+					return nil, nil
+				}
 				return enc.Encode(s.Elem().Interface())
 			}), nil
 		}
